@@ -27,13 +27,29 @@ RULE = ("TLC behaviours of Gen_CalcEnv (environment transition cover = every arr
 
 
 def make_P(ctx):
-    return cc.make_P(ctx, CFG, UNIVERSES, nontrivial, RULE, design=False, env={"VERIF_FRESH": "none"}, quick_beh=250, n_random=(250, 4000),
+    return cc.make_P(ctx, CFG, UNIVERSES, nontrivial, RULE, design=False, env={"VERIF_FRESH": "none"}, quick_beh=150, n_random=(150, 4000),
                      assumptions=["resolver level only: RouteUpdate contents; the route-manager level (targets per route class) is checked by the routemgr check",
                                   "destinations that are also a tunnel or host address are left to C01's fresh oracle"])
 
 
+def _manager_replay(ctx):
+    # replay directories of the manager-level leg carry signatures "manager:..."
+    if not ctx.replay:
+        return False
+    try:
+        import json, os
+        return str(json.load(open(os.path.join(ctx.replay, "meta.json"))).get("signature", "")).startswith("manager:")
+    except Exception:
+        return False
+
+
 def run(ctx):
-    pipeline.standard_check(ctx, make_P(ctx))
+    if not _manager_replay(ctx):
+        pipeline.standard_check(ctx, make_P(ctx))
+    # manager level (routeManager + vxlan/ipip/noencap managers): checks/c43_managers.py
+    if not ctx.replay or _manager_replay(ctx):
+        from checks import c43_managers
+        c43_managers.run_manager_level(ctx)
 
 
 def selftest(ctx):
@@ -63,8 +79,10 @@ def selftest(ctx):
             if e["ev"] == "emit" and e["m"]["kind"] == "route_update" and e["m"]["body"]["types"] == ["REMOTE_WORKLOAD"] and e["m"]["body"]["dst"]["n"] == 29:
                 return evs[:i] + evs[i + 1:]
 
-    return cc.selftest(ctx, P, [("flip_same_subnet", flip_same_subnet), ("wrong_pool", wrong_pool), ("stale_node_ip", stale_node_ip),
-                                ("lose_block_route", lose_block_route)], n_random=150)
+    ok = cc.selftest(ctx, P, [("flip_same_subnet", flip_same_subnet), ("wrong_pool", wrong_pool), ("stale_node_ip", stale_node_ip),
+                              ("lose_block_route", lose_block_route)], n_random=150)
+    from checks import c43_managers
+    return bool(c43_managers.selftest_manager_level(ctx)) and bool(ok)
 
 
 MANIFEST = dict(
